@@ -1212,6 +1212,45 @@ def c_insert_skip(repo):
     raise NotApplicable('enumerate loop')
 
 
+@control(['C07'], 'arity-error-whatever-the-tolerance', ['R07.f'], 'raise a parse error in read_args without consulting the tolerance')
+def c_unguarded_raise(repo):
+    t = parse(repo, 'reader')
+    fn = find_func(t, 'read_args')
+    ret = [i for i, s_ in enumerate(fn.body) if isinstance(s_, ast.Return)]
+    if not ret:
+        raise NotApplicable('return of read_args')
+    fn.body.insert(ret[-1], ast.parse("if n_required > 0:\n    raise TypeError('arguments missing')").body[0])
+    return {'reader': src(t)}
+
+
+@control(['C20'], 'scan-count-is-a-text-length', ['R20.f'], 'return the length of the skipped text from num_forward_until')
+def c_count_len(repo):
+    t = parse(repo, 'utils')
+    fn = _buffer_method(t, 'num_forward_until')
+    for n in ast.walk(fn):
+        if isinstance(n, ast.Return) and isinstance(n.value, ast.Name):
+            acc = None
+            for a in ast.walk(fn):
+                if isinstance(a, ast.AugAssign) and isinstance(a.target, ast.Name) and isinstance(a.op, ast.Add) \
+                        and isinstance(a.value, ast.Call):
+                    acc = a.target.id
+            if acc is None:
+                raise NotApplicable('accumulator')
+            n.value = ast.Call(ast.Name('len', ast.Load()), [ast.Name(acc, ast.Load())], [])
+            return {'utils': src(t)}
+    raise NotApplicable('return of the count')
+
+
+@control(['C17'], 'recursion-limit-raised', ['R17.a'], 'raise the interpreter recursion limit inside read')
+def c_reclimit(repo):
+    t = parse(repo, 'tex')
+    fn = find_func(t, 'read')
+    i = 1 if fn.body and isinstance(fn.body[0], ast.Expr) and isinstance(fn.body[0].value, ast.Constant) else 0
+    fn.body.insert(i, ast.parse('import sys\nsys.setrecursionlimit(10000)').body[1])
+    t.body.insert(0, ast.parse('import sys').body[0])
+    return {'tex': src(t)}
+
+
 # ---- argument lists (C18)
 
 @control(['C18'], 'reverse-forgets-shadow', ['R18.a'], 'reverse only the list proper')
